@@ -6,7 +6,7 @@ import time
 from . import common as c
 
 SUPPORT = ["Str/TablesOk.v", "Str/FinderProofs.v", "Str/QuoteProofs.v", "Str/GoQuoteProofs.v", "Str/RoundTrip.v",
-           "Str/HtmlProofs.v", "Str/Utf8Proofs.v", "Str/UnquoteProofs.v", "Str/DoubleProofs.v", "Str/Swar.v"]
+           "Str/HtmlProofs.v", "Str/Utf8Proofs.v", "Str/UnquoteProofs.v", "Str/DoubleProofs.v", "Str/Swar.v", "Str/JitString.v"]
 
 CLAIM = {
     "gens": ["Tables"],
@@ -28,15 +28,29 @@ CLAIM = {
 BACKENDS = [("vm-encoder", {"SONIC_ENCODER_USE_VM": "1"}), ("noavx2", {"SONIC_MODE": "noavx2"}), ("optdec", {"SONIC_USE_OPTDEC": "1"})]
 
 
-def classify_known(f):
-    """narrow signatures of the recorded findings"""
+def classify_known(f, js_mismatch):
+    """narrow signatures of the recorded findings.  A divergence from the oracle is excused only when the OBSERVED
+    behaviour is the one the recorded defect predicts:
+    - KF-double-unquote-fusion: the implementation's result for that very document equals the extracted Coq model of the
+      jitdec `,string` path (JitString.jit_unquote_twice: literal \\" tests + native fused F_DBLUNQ pass with the flags
+      jitdec passes for the UseUnicodeErrors setting in force); the document is a tied JS case, a JS mismatch is a violation;
+    - KF-optdec-stringtag-illformed-utf8 (optdec run only): class "optdec-json-semantics" = UseUnicodeErrors on, no error and
+      the value encoding/json returns; class "illformed-utf8-replaced" is computed by the harness from the observed value
+      (no error, input ill-formed, result == the input with every ill-formed byte replaced by U+FFFD, i.e. exactly what
+      encoding/json.Unmarshal - which optdec calls - returns)."""
     d = f["detail"]
     if f.get("kind") == "through-roundtrip-double":
         if f.get("run") == "optdec" and d.get("class") == "illformed-utf8-replaced":
             return "KF-optdec-stringtag-illformed-utf8"
         return None
+    if f.get("kind") == "through-double-vs-std" and f.get("run") == "optdec":
+        if d.get("class") == "optdec-json-semantics" and d.get("unicode_errors") == "1":
+            return "KF-optdec-stringtag-illformed-utf8"
+        return None
     if f.get("kind") == "through-double-vs-std":
-        if f.get("run") != "optdec" and d.get("class") in ("outer-noncanonical-escape", "inner-surrogate-escape"):
+        key = "JS\t%s\t%s" % (d.get("unicode_errors"), d.get("body"))
+        if (f.get("run") != "optdec" and d.get("class") in ("outer-noncanonical-escape", "inner-surrogate-escape")
+                and js_mismatch is not None and key not in js_mismatch):
             return "KF-double-unquote-fusion"
         return None
     # KF-htmlescape-long-prefix-panic is fixed (e1e5e27): an HTMLEscape-panic is a violation again
@@ -44,7 +58,7 @@ def classify_known(f):
 
 
 def run_model(mexe, work, sub):
-    """model on <sub>/cases.txt; returns list of (case, impl, model) mismatches, number of lines"""
+    """model on <sub>/cases.txt; returns (first mismatches as dicts, number of lines, set of ALL mismatching JS case lines)"""
     d = os.path.join(work, sub)
     cases = open(os.path.join(d, "cases.txt")).read()
     impl = open(os.path.join(d, "impl.txt")).read().splitlines()
@@ -52,14 +66,15 @@ def run_model(mexe, work, sub):
     model = out.splitlines()
     cl = cases.splitlines()
     if rc != 0 or len(model) != len(impl):
-        return [{"case": "(driver)", "impl": "%d lines" % len(impl), "model": "rc=%d, %d lines: %s" % (rc, len(model), out[-300:])}], len(cl)
-    bad = []
+        return [{"case": "(driver)", "impl": "%d lines" % len(impl), "model": "rc=%d, %d lines: %s" % (rc, len(model), out[-300:])}], len(cl), None
+    bad, js = [], set()
     for a, b, m in zip(cl, impl, model):
         if b != m:
-            bad.append({"case": a, "impl": b, "model": m})
-            if len(bad) >= 50:
-                break
-    return bad, len(cl)
+            if a.startswith("JS\t"):
+                js.add(a)
+            if len(bad) < 50 or (a.startswith("JS\t") and len(bad) < 60):
+                bad.append({"case": a, "impl": b, "model": m})
+    return bad, len(cl), js
 
 
 def run(ctx):
@@ -116,6 +131,7 @@ def run(ctx):
     # ---- T + oracle search: main process, then the Marshal/Unmarshal level once per back end
     runs = [("main", "gen", {})] + [(lbl, "through", env) for lbl, env in BACKENDS]
     reports, failures, mism, tied = {}, [], [], 0
+    js_mismatch = {}          # run label -> set of JS cases where implementation != model (None: model did not run)
     for lbl, mode, extra in runs:
         env = dict(c.GOENV)
         env.update(extra)
@@ -131,8 +147,9 @@ def run(ctx):
         for f in (rep["failures"] or []):
             f["run"] = lbl
             failures.append(f)
+        js_mismatch[lbl] = None
         if mok and rc == 0:
-            bad, n = run_model(mexe, work, lbl)
+            bad, n, js_mismatch[lbl] = run_model(mexe, work, lbl)
             tied += n
             for b in bad:
                 b["run"] = lbl
@@ -162,7 +179,7 @@ def run(ctx):
     known = {k["id"]: k for k in c.known_findings("C20")}
     seen, real = set(), []
     for f in failures:
-        k = classify_known(f)
+        k = classify_known(f, js_mismatch.get(f.get("run")))
         if k and k in known:
             seen.add(k)
         else:
@@ -175,8 +192,8 @@ def run(ctx):
         by_kind.setdefault(f["kind"], f)
     for kind, f in list(by_kind.items())[:4]:
         ctx.violation("%s: the implementation disagrees with the property's oracle" % kind, f, True)
-    if not real:
-        for m in mism[:2]:
+    js_first = sorted([m for m in mism if m["case"].startswith("JS\t")], key=lambda m: len(m["case"]))[:1]
+    for m in (mism[:2] if not real else js_first):
             # model/implementation disagreement with the oracle silent on it: the input is concrete, the model is what the theorems are about
             ctx.violation("implementation departs from the verified model", {"case": m["case"], "impl": m["impl"], "model": m["model"], "run": m["run"]}, True)
     if problems and not ctx.violations:
